@@ -113,6 +113,11 @@ def paramsetsOK (m : Model K) : Bool :=
     ((sliceOf m.slices p.name).2 - (sliceOf m.slices p.name).1 == p.n) &&
     (!p.constrained || ((p.auxdata.getD []).length == p.n))
 
+/-- every parameter index the model reads lies below `N` (the slices of all modifier names end at or before `N`) -/
+def readsBelow (m : Model K) (N : Nat) : Bool :=
+  decide (0 < N) && m.cfg.modifiers.all fun (n, _) =>
+    decide ((sliceOf m.slices n).1 < N) && decide ((sliceOf m.slices n).2 ≤ N)
+
 /-- per-sample clipping does not lift the zero rows of absent samples -/
 def clipSampleNonPos (m : Model K) : Bool :=
   match m.settings.clipSample with
@@ -160,4 +165,11 @@ def logpdf (P : Prim K) (L : LogPrim K) (m : Model K) (par : Nat → K) (data : 
 
 end D
 end
+end Pyhf
+
+namespace Pyhf
+/-- `Workspace.data(model)`: the observations of the channels in `config.channels` order, then `config.auxdata` -/
+def workspaceData {K : Type} (m : Model K) (obs : List (String × List K)) (includeAux : Bool := true) : List K :=
+  (m.cfg.channels.flatMap fun c => ((obs.find? (·.1 == c)).map (·.2)).getD []) ++
+    (if includeAux then auxData m.ps else [])
 end Pyhf
